@@ -139,6 +139,52 @@ Theorem C21_direct_mode_erl : forall prog direct epos,
 Proof. exact line_of_direct. Qed.
 Print Assumptions C21_direct_mode_erl.
 
+(* ---- several commands: what a stop leaves behind ------------------------------------------------------
+   The interpreter lives on between commands (run_session / after_halt in model/Flow.v).  Whatever message ended
+   the program - error without handler, error inside the handler, No RESUME, ON ERROR GOTO 0 inside the handler,
+   RESUME without error - it is no longer "handling an error" afterwards, so the next error raised with a handler
+   line set (after GOTO 10 from the prompt, or from a direct statement) jumps to the handler again. *)
+Theorem C21_stop_leaves_handler_mode : forall code st c l,
+  step code st = Halt (Stopped c l) -> handling (ds (after_halt code st)) = false.
+Proof. exact stop_leaves_handler_mode. Qed.
+Print Assumptions C21_stop_leaves_handler_mode.
+
+Theorem C21_trapped_again_after_stop : forall code st c l st2 st2' c2 epos2 h,
+  step code st = Halt (Stopped c l) ->
+  handling (ds st2') = handling (ds (after_halt code st)) ->
+  pstep code st2 = PRaise st2' c2 epos2 -> onerr (ds st2') <> 0 -> find_line code (onerr (ds st2')) = Some h ->
+  step code st2 = Go (handler_state st2' (pc st2) c2 (line_of code epos2) h) [].
+Proof. exact trapped_again. Qed.
+Print Assumptions C21_trapped_again_after_stop.
+
+Theorem C21_untrapped_error_state : forall code st st' c epos,
+  pstep code st = PRaise st' c epos -> after_halt code st = stopped_state st' c (line_of code epos).
+Proof. exact untrapped_error_state. Qed.
+Print Assumptions C21_untrapped_error_state.
+
+Theorem C21_end_forgets_error : forall code st, nth_error code (pc st) = Some SEnd ->
+  handling (ds (after_halt code st)) = false /\ resume_at (ds (after_halt code st)) = None.
+Proof. exact end_leaves_handler_mode. Qed.
+Print Assumptions C21_end_forgets_error.
+
+Theorem C21_run_st_is_run : forall code fuel st,
+  (let '(t, o, _) := run_st code fuel st in (t, o)) = run code fuel st.
+Proof. exact run_st_run. Qed.
+Print Assumptions C21_run_st_is_run.
+
+(* 10 ON ERROR GOTO 100 / 20 PRINT 1:ERROR 5:PRINT 2 / 30 PRINT 3:END / 100 IF N%=0 THEN N%=1:ERROR 6 /
+   110 PRINT ERR:PRINT ERL:RESUME NEXT  -  RUN stops with Overflow in 100 (error inside the handler);
+   GOTO 10 typed next: error 5 is trapped again *)
+Example C21_session_nonvacuous :
+  run_session
+    [SLine 10; SOnErrorGoto 100; SLine 20; SPrint (EConst 1); SError (EConst 5); SPrint (EConst 2);
+     SLine 30; SPrint (EConst 3); SEnd;
+     SLine 100; SIf (ECmp CEq (EVar 7%nat) (EConst 0)) None; SLet 7%nat (EConst 1); SError (EConst 6);
+     SLine 110; SPrint EErr; SPrint EErl; SResume RNext]
+    [CRun; CDirect [SGoto 10]] 200 (init_at 0)
+  = [1; 6; 100; 1; 55555; 0; 1; 5; 20; 2; 3; 55555].
+Proof. vm_compute. reflexivity. Qed.
+
 (* ---- non-vacuity ------------------------------------------------------------------------------------ *)
 (* 10 ON ERROR GOTO 100
    20 A%=1:ERROR 5:PRINT 2
